@@ -1854,14 +1854,17 @@ impl Shard {
         let mut req = vec!["init=-".to_string()];
         req.extend(ad.case.ops[..=ad.pre].iter().map(|i| i.encode()));
         results.truncate(ad.pre + 1);
-        // kinds a/f: `<A>:take`, then the ops that completed before the flush did, `<A>:dropPair`, then the rest
+        // kinds a/f: `<A>:take`, the ops directly after it that completed before the flush did, `<A>:dropPair`, the rest
         let micro = matches!(ad.kind, 'a' | 'f');
         let apos = perm.iter().position(|j| *j == 0).unwrap_or(0);
+        // (the explaining order is kept as it is: `dropPair` goes after the longest run of ops following A that
+        // completed before the flush did)
         let mut order: Vec<usize> = perm[..apos].to_vec();
         order.push(0);
-        order.extend(perm[apos + 1..].iter().filter(|j| micro && early_idx.contains(j)));
+        let n_early = perm[apos + 1..].iter().take_while(|j| micro && early_idx.contains(j)).count();
+        order.extend(&perm[apos + 1..apos + 1 + n_early]);
         order.push(usize::MAX); // dropPair marker
-        order.extend(perm[apos + 1..].iter().filter(|j| !(micro && early_idx.contains(j))));
+        order.extend(&perm[apos + 1 + n_early..]);
         let actx = ops[1].encode().split(':').next().unwrap_or("").to_string();
         for j in &order {
             if *j == usize::MAX {
